@@ -135,28 +135,29 @@ def plan(prop, tier):
     P = []
     if prop == "C01":
         P += S("release", "sentinels") + S("debug", "sentinels")
-        P += S("release", "hist", n=1500 if q else 25000, shards=8 if q else 12, profile="general")
-        P += S("debug", "hist", n=500 if q else 8000, shards=4, profile="general")
-        P += S("release", "hist", n=400 if q else 6000, shards=2, profile="entry")
+        P += S("release", "hist", n=4000 if q else 40000, shards=10 if q else 14, profile="general")
+        P += S("debug", "hist", n=1500 if q else 12000, shards=4, profile="general")
+        P += S("release", "hist", n=2000 if q else 15000, shards=2, profile="entry")
         P += S("release", "zst", depth=4 if q else 5, shards=1 if q else 4) + S("debug", "zst", depth=3 if q else 4)
         P += S("release", "plain", n=300 if q else 3000, shards=2) + S("debug", "plain", n=100 if q else 600)
+        P += S("release", "sweep", shards=2 if q else 6, maxlen=140 if q else 1000, dense=130 if q else 300, timeout=1800)
     elif prop == "C02":
-        P += S("release", "ladder", n=2 if q else 4, shards=8 if q else 14, keys=8192 if q else 200000, timeout=1500)
-        P += S("release", "hist", n=1500 if q else 20000, shards=4, profile="work")
-        P += S("release", "hist", n=600 if q else 8000, shards=2, profile="general")
-        P += S("debug", "hist", n=300 if q else 3000, shards=2, profile="work")
+        P += S("release", "ladder", n=6, shards=8 if q else 14, keys=20000 if q else 200000, timeout=2400)
+        P += S("release", "hist", n=8000 if q else 40000, shards=4, profile="work")
+        P += S("release", "hist", n=4000 if q else 20000, shards=2, profile="general")
+        P += S("debug", "hist", n=1500 if q else 8000, shards=2, profile="work")
         P += S("release", "sweep", shards=2 if q else 6, maxlen=140 if q else 1000, dense=130 if q else 300, timeout=1800)
     elif prop == "C03":
-        P += S("release", "ladder", n=2 if q else 4, shards=8 if q else 14, keys=8192 if q else 200000, timeout=1500)
-        P += S("release", "hist", n=1500 if q else 20000, shards=6, profile="general")
-        P += S("release", "hist", n=800 if q else 10000, shards=2, profile="partition")
+        P += S("release", "ladder", n=6, shards=8 if q else 14, keys=20000 if q else 200000, timeout=2400)
+        P += S("release", "hist", n=4000 if q else 30000, shards=6, profile="general")
+        P += S("release", "hist", n=3000 if q else 20000, shards=2, profile="partition")
         P += S("release", "chains", shards=2, stride=40 if q else 6)
     elif prop == "C04":
         P += S("release", "sentinels")
-        P += S("release", "sweep", shards=8 if q else 14, maxlen=300 if q else 2400, dense=130 if q else 520, timeout=1800)
+        P += S("release", "sweep", shards=8 if q else 14, maxlen=900 if q else 4000, dense=260 if q else 1100, timeout=3000)
         P += S("debug", "sweep", shards=2, maxlen=120 if q else 300, dense=60 if q else 130, timeout=1800)
-        P += S("release", "hist", n=1500 if q else 20000, shards=4, profile="headroom")
-        P += S("release", "prefix", n=30 if q else 400, shards=2 if q else 8)
+        P += S("release", "hist", n=6000 if q else 40000, shards=4, profile="headroom")
+        P += S("release", "prefix", n=150 if q else 1500, shards=2 if q else 8)
     elif prop == "C05":
         for fl in ["release", "debug", "asan"] + ([] if q else ["msan", "valgrind"]):
             P += S(fl, "sentinels")
@@ -175,8 +176,8 @@ def plan(prop, tier):
             P += S("miri", "chains", shards=6, stride=900, timeout=3000)
             P += S("miri", "sets", n=4, shards=2, timeout=3000)
     elif prop == "C06":
-        P += S("release", "hist", n=1500 if q else 25000, shards=8, profile="drops")
-        P += S("debug", "hist", n=400 if q else 5000, shards=2, profile="drops")
+        P += S("release", "hist", n=5000 if q else 40000, shards=8, profile="drops")
+        P += S("debug", "hist", n=1500 if q else 10000, shards=2, profile="drops")
         P += S("asan", "hist", n=800 if q else 10000, shards=3, profile="ub", timeout=1800)
         P += S("release", "sets", n=300 if q else 4000, shards=2)
         P += S("release", "chains", shards=2, stride=40 if q else 6)
@@ -187,52 +188,53 @@ def plan(prop, tier):
         P += S("asan", "fault", n=50 if q else 2500, shards=4 if q else 6, timeout=1800, leaks_ok=True)
         P += S("miri", "fault", n=1 if q else 14, shards=4 if q else 12, timeout=3000, leaks_ok=True)
     elif prop == "C08":
-        P += S("release", "hist", n=1500 if q else 25000, shards=8, profile="iters")
+        P += S("release", "hist", n=5000 if q else 40000, shards=8, profile="iters")
         P += S("debug", "hist", n=400 if q else 5000, shards=2, profile="iters")
         P += S("release", "iterstates", n=60 if q else 1500, shards=4 if q else 8)
         P += S("release", "sets", n=300 if q else 4000, shards=2)
     elif prop == "C09":
-        P += S("release", "hist", n=1500 if q else 25000, shards=8, profile="partition")
-        P += S("debug", "hist", n=400 if q else 5000, shards=2, profile="partition")
+        P += S("release", "hist", n=8000 if q else 50000, shards=8, profile="partition")
+        P += S("debug", "hist", n=2500 if q else 12000, shards=2, profile="partition")
         P += S("release", "sets", n=300 if q else 4000, shards=2)
+        P += S("release", "dropbomb", n=300 if q else 5000, shards=2) + S("debug", "dropbomb", n=100 if q else 1000)
     elif prop == "C10":
         P += S("release", "sentinels") + S("debug", "sentinels")
-        P += S("release", "hist", n=1500 if q else 25000, shards=6, profile="capacity")
-        P += S("debug", "hist", n=500 if q else 6000, shards=4, profile="capacity")
-        P += S("release", "sweep", shards=4 if q else 8, maxlen=200 if q else 1300, dense=100 if q else 300, timeout=1800)
+        P += S("release", "hist", n=8000 if q else 50000, shards=6, profile="capacity")
+        P += S("debug", "hist", n=2500 if q else 12000, shards=4, profile="capacity")
+        P += S("release", "sweep", shards=4 if q else 8, maxlen=500 if q else 2400, dense=200 if q else 600, timeout=3000)
         P += S("debug", "sweep", shards=2, maxlen=100 if q else 200, dense=50 if q else 100, timeout=1800)
-        P += S("release", "limits", n=40 if q else 400, shards=2) + S("debug", "limits", n=40 if q else 400, shards=2)
+        P += S("release", "limits", n=300 if q else 3000, shards=2) + S("debug", "limits", n=300 if q else 3000, shards=2)
     elif prop == "C11":
-        P += S("release", "hist", n=1500 if q else 20000, shards=4, profile="clone")
-        P += S("release", "clones", n=600 if q else 10000, shards=8)
-        P += S("debug", "clones", n=150 if q else 2000, shards=2)
+        P += S("release", "hist", n=8000 if q else 40000, shards=4, profile="clone")
+        P += S("release", "clones", n=6000 if q else 60000, shards=8)
+        P += S("debug", "clones", n=2000 if q else 12000, shards=2)
     elif prop == "C12":
-        P += S("release", "chains", shards=12 if q else 14, stride=4 if q else 1, timeout=1800)
-        P += S("debug", "chains", shards=4, stride=24 if q else 4, timeout=1800)
-        P += S("release", "hist", n=1000 if q else 15000, shards=2, profile="entry")
+        P += S("release", "chains", shards=12 if q else 14, stride=1, sizes="0,5,20,40,70" if q else "0,1,5,14,20,29,40,57,70,113", timeout=3000)
+        P += S("debug", "chains", shards=4, stride=6 if q else 1, timeout=3000)
+        P += S("release", "hist", n=6000 if q else 40000, shards=2, profile="entry")
     elif prop == "C13":
-        P += S("release", "sets", n=700 if q else 12000, shards=8)
-        P += S("debug", "sets", n=200 if q else 2500, shards=4)
+        P += S("release", "sets", n=8000 if q else 60000, shards=8)
+        P += S("debug", "sets", n=2500 if q else 15000, shards=4)
         P += S("release", "zst", depth=4) + S("release", "sentinels")
     elif prop == "C14":
-        P += S("release", "meta", n=400 if q else 8000, shards=8)
-        P += S("debug", "meta", n=100 if q else 1500, shards=2)
+        P += S("release", "meta", n=8000 if q else 80000, shards=8)
+        P += S("debug", "meta", n=2500 if q else 15000, shards=4)
     elif prop == "C15":
-        P += S("ext", "par", n=12 if q else 200, shards=6 if q else 12, timeout=1800)
+        P += S("ext", "par", n=60 if q else 1500, shards=8 if q else 14, timeout=3000)
         P += S("tsan", "par", n=4 if q else 60, shards=3 if q else 4, timeout=1800)
         P += S("miriext", "par", n=1, shards=2 if q else 8, timeout=3000, small=1)
     elif prop == "C16":
-        P += S("ext", "serde", n=150 if q else 3000, shards=4 if q else 8)
-        P += S("extdebug", "serde", n=50 if q else 600, shards=2)
+        P += S("ext", "serde", n=3000 if q else 30000, shards=4 if q else 8)
+        P += S("extdebug", "serde", n=1000 if q else 6000, shards=2)
     elif prop == "C17":
         # pairs of transcripts: same args, release vs debug
-        for prof, n, sh in [("general", 400 if q else 6000, 4), ("capacity", 300 if q else 5000, 3), ("entry", 300 if q else 5000, 3), ("ub", 200 if q else 3000, 2)]:
+        for prof, n, sh in [("general", 3000 if q else 20000, 4), ("capacity", 2500 if q else 15000, 3), ("entry", 2500 if q else 15000, 3), ("ub", 2000 if q else 10000, 2), ("partition", 1500 if q else 8000, 1), ("clone", 1500 if q else 8000, 1)]:
             for i in range(sh):
                 for fl in ("release", "debug"):
                     P.append({"fl": fl, "args": ["hist", "--n", str(n), "--profile", prof, "--shard", f"{i}/{sh}"], "timeout": 1800, "leaks_ok": False,
                               "transcript": f"{prof}-{i}"})
         for fl in ("release", "debug"):
-            P.append({"fl": fl, "args": ["limits", "--n", str(60 if q else 600), "--shard", "0/1"], "timeout": 1800, "leaks_ok": False, "transcript": "limits-0"})
+            P.append({"fl": fl, "args": ["limits", "--n", str(400 if q else 3000), "--shard", "0/1"], "timeout": 1800, "leaks_ok": False, "transcript": "limits-0"})
             P.append({"fl": fl, "args": ["sentinels", "--shard", "0/1"], "timeout": 600, "leaks_ok": False, "transcript": "sentinels-0"})
     else:
         raise SystemExit(f"unknown property {prop}")
@@ -572,7 +574,8 @@ def main():
             sig = "miri-leak"
         else:
             sig = first_in_repo_frame(text)
-            first = next((l for l in text.splitlines() if "ERROR:" in l or "Undefined Behavior" in l or "SUMMARY" in l or "panicked" in l), f"exit status {r['rc']}")
+            first = next((l for l in text.splitlines() if "ERROR:" in l or "Undefined Behavior" in l or "SUMMARY" in l or "panicked" in l or "FATAL" in l or "aborting" in l), "no message")
+            first = f"{first} (exit status {r['rc']})"
             what = f"{kind} in flavour {fl} ({r['sh']['args'][0]}): {first.strip()[:300]} [first in-repo frame {sig}]"
         sanitizer_reports.setdefault(fl, 0)
         sanitizer_reports[fl] += 1
